@@ -191,6 +191,31 @@ func must(err error) {
 	}
 }
 
+var familyDone bool
+
+// ensureFamily generates the binding family into the scratch module with the generator
+// built from /repo's current working tree, and installs the glue file.
+func ensureFamily() {
+	if familyDone {
+		return
+	}
+	t0 := time.Now()
+	gd := filepath.Join(scratch, "gendriver")
+	out, err := run(scratch, goEnv, "go", "build", "-o", gd, "verif/cmd/gendriver")
+	if err != nil {
+		die(2, "building the generator from /repo failed (exit 2: build trouble): %v\n%s", err, out)
+	}
+	out, err = run(scratch, goEnv, gd, filepath.Join(verifDir, "family", "family.manifest.json"), filepath.Join(scratch, "fam"))
+	if err != nil {
+		die(2, "generating the binding family failed (exit 2; C12's check reports generator failures as violations): %v\n%s", err, lastLines(out, 30))
+	}
+	glue, err := os.ReadFile(filepath.Join(verifDir, "family", "glue.go.txt"))
+	must(err)
+	must(os.WriteFile(filepath.Join(scratch, "scen", "s4", "glue.go"), glue, 0644))
+	familyDone = true
+	logf("generated binding family in %.1fs", time.Since(t0).Seconds())
+}
+
 // ensureTools builds bin/instrument if missing or stale.
 func ensureTools() {
 	bin := filepath.Join(verifDir, "bin", "instrument")
@@ -245,6 +270,9 @@ func buildScenario(b *Batch) *builtBin {
 	logf("%s", strings.TrimSpace(out))
 	if b.Prepare != nil {
 		b.Prepare(overlay)
+	}
+	if b.Family {
+		ensureFamily()
 	}
 	bin := filepath.Join(scratch, fmt.Sprintf("%s-%d.test", filepath.Base(b.Pkg), idx))
 	targs := []string{"test", "-c", "-overlay", overlay, "-vet=off", "-o", bin}
